@@ -786,6 +786,7 @@ func main() {
 	genAsmTables(repo, out)
 	genAsmScalar(repo, out)
 	genFacts(p, repo, out)
+	genPools(p, out)
 	cmd := exec.Command(os.Args[0], repo, out, "stage2table")
 	if msg, err := cmd.CombinedOutput(); err != nil {
 		// leave a file that says why; every theorem about the table then fails to check, and nothing else does
